@@ -169,6 +169,42 @@ while true do
 end`},
 }
 
+// Scripts that need no library at all (only the host function emit): they can be the first call ever
+// made on a state created with Options{SkipOpenLibs: true}.
+var bareList = []construct{
+	{name: "bare_tight_loop", src: `
+local i = 0
+while true do i = i + 1 if i % 7 == 0 then emit(i) end end`},
+	{name: "bare_calls_and_tail_calls", src: `
+local function step(n) return n + 1 end
+local function spin(n) if n % 9 == 0 then emit(n) end return spin(step(n)) end
+local c = 0
+for i = 1, 6 do c = step(c) emit(c) end
+spin(c)`},
+	{name: "bare_recursion_closures", src: `
+local function counter() local c = 0 return function() c = c + 1 return c end end
+local k = counter()
+local function f(n) emit(n) if n == 0 then return 0 end return 1 + f(n - 1) end
+while true do emit(f(5), k()) end`},
+	{name: "bare_goto_repeat", src: `
+local i = 0
+repeat i = i + 1 emit("r", i) until i >= 3
+::top::
+i = i + 1
+if i % 3 == 0 then emit(i) end
+goto top`},
+	{name: "bare_terminating", src: `
+local s = 0
+for i = 1, 9 do s = s + i emit(i, s) end
+local function g(a, ...) local t = {...} return a, #t end
+emit(g(1, 2, 3))
+local t = {10, 20, x = 1}
+t.y = t[1] + t[2] emit(t.y, #t)
+emit("done")`},
+	{name: "bare_empty_for", noref: true, src: `
+for i = 1, 1e308 do end`},
+}
+
 // The regression corpus: witnesses of the defects of DESIGN 9.1 for C11 and of those found later.
 //
 //	C11-1 (fixed): blocking ch:send never returned after cancel -> in runBlocking (kind send).
@@ -227,6 +263,32 @@ local function spin(tag) return function() local n = 0 while true do n = n + 1 i
 local a = coroutine.wrap(spin("a"))
 local b = coroutine.create(function() local inner = coroutine.wrap(spin("in")) while true do emit("b", inner()) coroutine.yield() end end)
 while true do emit(a()) emit(coroutine.resume(b)) end`})
+	// state construction and attach point (see newEnvS): the cancelled script is the FIRST call ever
+	// made on a state built with SkipOpenLibs (no library: the scripts use emit only), the same with
+	// the libraries opened without L.Call, a context attached after the first call, a context that
+	// replaces another one, and one attached after SetContext/RemoveContext
+	for _, c := range bareList {
+		js = append(js, job{Name: c.name + "/bare", Class: "state_bare/" + c.name, Src: c.src, Cap: acap, AllK: true, NoRef: c.noref, Setup: "bare"})
+	}
+	js = append(js, job{Name: "bare_calls_and_tail_calls/bare_pcall", Class: "state_bare/api_pcall", Src: bareList[1].src, Cap: acap, AllK: true, Setup: "bare", Mode: "pcall"})
+	js = append(js, job{Name: "bare_tight_loop/bare_late", Class: "state_bare_late/bare_tight_loop", Src: bareList[0].src, Cap: acap, AllK: true, Setup: "bare_late"})
+	for _, su := range []struct {
+		setup string
+		names []string
+	}{
+		{"bare_libs", []string{"tail_calls", "pcall_retry", "xpcall_retry_handler_loops", "coroutine_ping_pong", "sort_comparator", "metamethod_recursion"}},
+		{"replace", []string{"tight_loop", "pcall_retry", "coroutine_wrap_generator"}},
+		{"reattach", []string{"goto_loop", "nested_protected", "coroutine_nested"}},
+		{"bare_libs_replace", []string{"recursion", "coroutine_retry_loops_inside"}},
+	} {
+		for _, name := range su.names {
+			for _, c := range constructList {
+				if c.name == name {
+					js = append(js, job{Name: c.name + "/" + su.setup, Class: "state_" + su.setup + "/" + c.name, Src: c.src, Cap: acap, AllK: true, NoRef: c.noref, Reason: c.reason, Setup: su.setup})
+				}
+			}
+		}
+	}
 	// SetContext; RemoveContext; cancel: nothing polls any more
 	js = append(js, job{Name: "remove_context", Class: "remove_context", RemoveCtx: true, Cap: 100000, Ks: []int{-1}, Src: srcOf("for_loops_terminating") + `
 local co = coroutine.wrap(function() for i = 1, 3 do emit("co", i) coroutine.yield() end end)
@@ -235,6 +297,9 @@ co() co() pcall(function() emit("in") error("x") end)`})
 	shapes := []string{"e", "eeee", "leael", "aaaa", "elelelaeea", "lllleeeeaaaaeeee", "f", "efeg", "Fge", "lfFaGe"}
 	if tier == "thorough" {
 		shapes = append(shapes, strings.Repeat("ela", 40), strings.Repeat("e", 100), strings.Repeat("al", 60)+"e")
+	}
+	for i, sh := range []string{"eeee", "elelelaeea", "efeg", "lfFaGe"} {
+		js = append(js, job{Name: fmt.Sprintf("calib_bare_%d", i), Class: "calibration_bare", Src: calibSrc(sh), Cap: 2000, AllK: true, Calib: true, Shape: sh, Setup: "bare"})
 	}
 	for i, sh := range shapes {
 		js = append(js, job{Name: fmt.Sprintf("calib_%d", i), Class: "calibration", Src: calibSrc(sh), Cap: 2000, AllK: true, Calib: true, Shape: sh})
